@@ -141,9 +141,9 @@ def scalar_job(j):
 def deco(src, lang):
     """the same program with non-ASCII text in a comment, a string and an identifier"""
     s = src.decode()
-    s = s.replace("/* sum */", "/* süm € \U0001d11e */").replace('"%d\\n"', '"%d é中\U0001f600\\n"')
+    s = s.replace("/* sum */", "/* süm € \U0001d11e \U00020bb7 \U0010fffd */").replace('"%d\\n"', '"%d é中\U0001f600\\n"')
     s = s.replace("// out", "// öut  x").replace("int r =", "int rés = 0; int r =")
-    s = s.replace("// namespace ns", "// nämespace \U00010000").replace('"s"', '"σ"').replace("var a = 1;", "var a = 'ß\U0001f4a9';")
+    s = s.replace("// namespace ns", "// nämespace \U00010000 \U00020000 \U000e0001").replace('"s"', '"σ"').replace("var a = 1;", "var a = 'ß\U0001f4a9';")
     return s
 
 
@@ -268,6 +268,10 @@ def check(ctx):
     sj = []
     top = 0x10000 if quick else 0x110000
     sc = scalars(1, top)
+    if quick:
+        # every supplementary plane by its first and last 512 scalars (all 16 planes are decoded by different arithmetic paths)
+        for plane in range(1, 17):
+            sc += scalars(plane * 0x10000, plane * 0x10000 + 512) + scalars(plane * 0x10000 + 0xFE00, plane * 0x10000 + 0x10000)
     for kind in ("cmtstr", "ident"):
         pool_sc = sc if kind == "cmtstr" else [c for c in sc if c >= 0x80]
         for enc in (ENCS if not quick else ["utf8", "utf16le"] if kind == "ident" else ENCS):
